@@ -21,20 +21,21 @@ Without(s, e) == SelectSeq(s, LAMBDA x : x # e)
 ------------------------------------------------------------------------------
 (* Part 1.  Keys are small integers: 1..3 valid keys (16, 24, 32 bytes);        *)
 (* 4, 5 = wrong length (15 and 33 bytes); 6 = request whose payload does not     *)
-(* decode; 7 = KeyManager call with a key that is not base64 (no query sent).    *)
+(* decode; 7 = KeyManager call with a key that is not base64 (no query sent);    *)
+(* 8 = request with an empty payload.                                            *)
 (* As in memberlist: only AddKey validates the length; UseKey of a key that is   *)
 (* not installed fails; RemoveKey of the primary key fails, of any other key     *)
 (* (installed or not, well-formed or not) succeeds; every accepted request       *)
 (* rewrites the file.                                                            *)
 ValidKeys == 1..3
-KeyArgs == 1..7
+KeyArgs == 1..8
 
 \* state: ring = sequence of keys, primary first; file = what the keyring file lists
 KR(ring, file) == [ring |-> ring, file |-> file]
 
 \* result of one request: [s |-> new state, ok |-> accepted]
 KApply(s, op, k) ==
-  IF k \in {6, 7} THEN [s |-> s, ok |-> FALSE]                        \* rejected before the keyring is touched
+  IF k \in {6, 7, 8} THEN [s |-> s, ok |-> FALSE]                        \* rejected before the keyring is touched
   ELSE CASE op = "install" ->
               IF k \notin ValidKeys THEN [s |-> s, ok |-> FALSE]      \* AddKey validates the length
               ELSE LET r == IF InSeq(s.ring, k) THEN s.ring ELSE Append(s.ring, k) IN
@@ -56,22 +57,30 @@ Load(file) == Dedup(file)
 (*   load  what the agent's loader makes of the file (ok = loaded without error)   *)
 (*   res   the request was accepted (Result of the reply / no error from the API)  *)
 (*   fchg  the file's bytes changed during the step                                *)
+(*   rep   the request was answered (a request that got no decodable answer is not *)
+(*         judged as "rejected")                                                   *)
+(* The reload is an observed step: the driver starts the agent's own loader on the *)
+(* file after every request (and on the operator's file at the start) and records  *)
+(* whether it succeeded and what it loaded; nothing about it is asserted by the    *)
+(* driver.                                                                         *)
 C22Clauses(pre, post) ==
        (IF post.load.ok /\ SeqSet(post.load.keys) = SeqSet(post.ring) /\ Len(post.load.keys) = Len(post.ring)
            /\ post.load.keys[1] = post.ring[1]
           THEN {} ELSE {"C22_reload_differs_from_keyring"})
-  \cup (IF ~post.res /\ (post.ring # pre.ring \/ post.fchg) THEN {"C22_rejected_request_changed_state"} ELSE {})
+  \cup (IF post.rep /\ ~post.res /\ (post.ring # pre.ring \/ post.fchg) THEN {"C22_rejected_request_changed_state"} ELSE {})
 
-KObs(s, ok, fchg) == [ring |-> s.ring, load |-> [ok |-> TRUE, keys |-> Load(s.file)], res |-> ok, fchg |-> fchg]
+KObs(s, ok, fchg) == [ring |-> s.ring, load |-> [ok |-> TRUE, keys |-> Load(s.file)], res |-> ok, fchg |-> fchg, rep |-> TRUE]
 
 ------------------------------------------------------------------------------
 (* Part 2.  A reply: [kind, keys (sequence, increasing), pk].  Kinds:            *)
 (*   1 ok   2 ok with a message   3 failed (Result = false, message)             *)
 (*   4 wrong type byte   5 payload does not decode   6 empty payload             *)
+(*   7 failed WITHOUT a message (Result = false, Message = "": what a real node  *)
+(*     answers to a key request it cannot decode)                                *)
 (* Keys are integers >= 1 (0 = the empty string).  Replies come from distinct    *)
 (* nodes, at most one per member.                                                *)
-Decodes(r) == r.kind \in {1, 2, 3}
-Failed(r) == r.kind \in {3, 4, 5, 6}
+Decodes(r) == r.kind \in {1, 2, 3, 7}
+Failed(r) == r.kind \in {3, 4, 5, 6, 7}
 
 RECURSIVE Fold(_, _, _)
 \* streamKeyResp: stops reading as soon as NumResp = NumNodes
